@@ -11,7 +11,8 @@
    closed. A request has [q_gate = true] when it came through SendMessage / SendNoWait / Shutdown (they
    wait for c.ready); negotiate's internal sends have [q_gate = false]. *)
 From Coq Require Import NArith List Bool.
-From LLRP Require Import Client.Types Client.Model Client.InvC08 Client.InvC08Gate Client.C08Proofs Client.C08Timeout.
+From LLRP Require Import Client.Types Client.Model Client.InvC08 Client.InvC08Gate Client.C08Proofs Client.C08Timeout Client.C08Wire.
+From LLRP Require Client.Stream Client.Hostile Client.HostileProofs Client.C08Bytes.
 Import ListNotations.
 Open Scope N_scope.
 
@@ -171,4 +172,76 @@ Example C08_example_bad :
   let s := run cfg11 evs_bad in
   phase s = PReturned CErrInit /\ out s = [] /\ wire s = [] /\
   caller_result s 1 = Some RErrClosed /\ caller_result s 2 = Some RErrClosed.
+Proof. vm_compute. repeat split; reflexivity. Qed.
+
+(* ---- round-5 addenda ---------------------------------------------------------------------- *)
+(* (e) the same on the wire, by message type: while the gate is shut, every frame the write loop has taken on (written,
+       or in its hand) is one of its own KeepAliveAcks, a GetSupportedVersion or a SetProtocolVersion. No request of a
+       caller — and in particular no CloseConnection of a Shutdown issued before Connect, before the first message or
+       while negotiation is outstanding — gets ahead of negotiation. (Client/C08Wire.v) *)
+Theorem C08_only_negotiation_frames_before_setup_is_over : forall cfg evs, exported_only evs ->
+  let s := run cfg evs in
+  ready s = false ->
+  forall o, In o (out s) \/ writer s = WHolding o \/ writer s = WPayload o ->
+    o_src o = None \/ f_typ (o_frame o) = T_GetSupportedVersion \/ f_typ (o_frame o) = T_SetProtocolVersion.
+Proof. exact only_negotiation_frames_before_ready. Qed.
+Print Assumptions C08_only_negotiation_frames_before_setup_is_over.
+
+(* a Shutdown before Connect and another one while GetSupportedVersion is outstanding (reader at 1.1): both wait at the gate,
+   the wire holds the negotiation frame only; after ConnReady the first to pass writes CloseConnection *)
+Definition shutdown_rq : req := mkReq T_CloseConnection 0 0 0 1 true true.
+Definition gsvr22 : frame := mkFrame 2 T_GetSupportedVersionResponse 0 10 50 (IVer 2 2 0).
+Definition evs_shutdown : list event :=
+  [Submit 1 shutdown_rq; ConnStart; ConnFirst (ren 0) HBNone;
+   NegSubmit 1000; WDefault; WAccept 1000; WWriteHdr; RCheck;
+   Submit 2 shutdown_rq; PassGate 1; PassGate 2; WDefault; WAccept 1; WAccept 2;
+   RFrame gsvr22 HBNone; NegStep].
+Example C08_example_shutdown_held :
+  let s := run cfg11 evs_shutdown in
+  exported_only evs_shutdown /\ ready s = false /\
+  map (fun o => f_typ (o_frame o)) (out s) = [T_GetSupportedVersion] /\
+  caller_phase s 1 = Some (Gate shutdown_rq) /\ caller_phase s 2 = Some (Gate shutdown_rq) /\
+  map (fun o => f_typ (o_frame o))
+      (out (run cfg11 (evs_shutdown ++ [ConnReady; PassGate 1; WDefault; WAccept 1; WWriteHdr]))) =
+    [T_GetSupportedVersion; T_CloseConnection].
+Proof. vm_compute. repeat split; auto. repeat constructor. Qed.
+
+(* (f) the first message read off the BYTES the reader delivers (Client/C08Bytes.v, on the byte-level model of
+       checkInitialMessage, Hostile.check_initial): for every byte stream, Connect gets past the initial check exactly
+       when the stream holds a complete header, the announced payload fits the limit, ALL the announced payload bytes
+       are there, the type is ReaderEventNotification and those bytes decode to ConnectionAttemptEvent = Success *)
+Theorem C08_first_message_bytes_accepted_iff : forall maxbuf cfg fl D bs rest',
+  Hostile.ci_res (Hostile.check_initial maxbuf cfg fl D bs) = Hostile.CiOk rest' <->
+  exists h rest pl,
+    Stream.read_header bs = Stream.RhOk h rest /\ Stream.h_len h <= maxbuf /\
+    Stream.split_at (Stream.h_len h) rest = (pl, rest') /\ Stream.len pl = Stream.h_len h /\
+    Stream.h_typ h = Hostile.MsgReaderEventNotification /\ Hostile.dec_ren D pl = Hostile.DOk (Some 0).
+Proof. exact C08Bytes.first_message_accepted_iff. Qed.
+Print Assumptions C08_first_message_bytes_accepted_iff.
+
+(* ... in particular a first message cut short by the end of the stream fails the attempt whatever the part that did
+   arrive decodes to — even a complete, well-formed success event, when the header announced more *)
+Theorem C08_first_message_cut_short_fails : forall maxbuf cfg fl D bs h rest,
+  Stream.read_header bs = Stream.RhOk h rest -> Stream.len rest < Stream.h_len h ->
+  Hostile.ci_res (Hostile.check_initial maxbuf cfg fl D bs) = Hostile.CiErr.
+Proof. exact C08Bytes.first_message_cut_short_fails. Qed.
+Print Assumptions C08_first_message_cut_short_fails.
+
+Theorem C08_first_message_without_header_fails : forall maxbuf cfg fl D bs,
+  (forall h rest, Stream.read_header bs <> Stream.RhOk h rest) ->
+  Hostile.ci_res (Hostile.check_initial maxbuf cfg fl D bs) = Hostile.CiErr.
+Proof. exact C08Bytes.first_message_without_header_fails. Qed.
+Print Assumptions C08_first_message_without_header_fails.
+
+(* non-vacuity: a decoder that reads exactly the two bytes [1; 2] as a success event. The honest frame is accepted; the
+   same two bytes behind a header that announces three are rejected (and so is the header alone) *)
+Definition dec_two : Hostile.decoders :=
+  Hostile.mkDec (fun bs => match bs with [1; 2] => Hostile.DOk (Some 0) | _ => Hostile.DErr end)
+                (fun _ => Hostile.DOk 0) (fun _ => Hostile.DOk (1, 2, 0)) (fun _ => Hostile.DOk 0) (fun _ => Hostile.DOk 0) (fun _ => Hostile.DOk 0).
+Example C08_example_cut_short :
+  let honest := Stream.frame_bytes (Stream.mkFrame 0 1 63 0 [1; 2]) in
+  let longer := Stream.header_bytes (Stream.mkFrame 0 1 63 0 [1; 2; 3]) in
+  Hostile.ci_res (Hostile.check_initial 16 HostileProofs.wit_cfg Hostile.flags_repaired dec_two honest) = Hostile.CiOk [] /\
+  Hostile.ci_res (Hostile.check_initial 16 HostileProofs.wit_cfg Hostile.flags_repaired dec_two (longer ++ [1; 2])) = Hostile.CiErr /\
+  Hostile.ci_res (Hostile.check_initial 16 HostileProofs.wit_cfg Hostile.flags_repaired dec_two longer) = Hostile.CiErr.
 Proof. vm_compute. repeat split; reflexivity. Qed.
